@@ -40,12 +40,15 @@ reg('C13', engine='h_ds',
 
 def refine_crash_key(prop, key, shard, case):
     """hook for properties that want the crashing case's subject (e.g. planner name) in the key"""
-    return key
+    f = CRASHKEY.get(prop)
+    return f(key, shard, case) if f else key
 
 
 def post(prop, run, shards, stats, fps, sanlog):
     """property-specific offline monitors over the recorded logs"""
-    return
+    f = POST.get(prop)
+    if f:
+        f(run, shards, stats, fps, sanlog)
 
 
 def floors(prop, tier, stats, hashes, run, scale):
@@ -66,3 +69,13 @@ ENGINES = {
     'h_ds': 'C++ harness: generated operation histories on NN structures / BinaryHeap / PDF / Grid* checked in lock-step '
             'against brute-force models, with structural walks; ASan+UBSan build',
 }
+
+# engine-specific fragments: monitors/props_<engine>.py call reg(...) / set ENGINES[...] / POST[...] / CRASHKEY[...]
+POST = {}      # prop -> function(run, shards, stats, fps, sanlog)
+CRASHKEY = {}  # prop -> function(key, shard, case) -> key
+import glob as _glob, os as _os, importlib.util as _ilu
+for _f in sorted(_glob.glob(_os.path.join(_os.path.dirname(_os.path.abspath(__file__)), 'props_*.py'))):
+    _spec = _ilu.spec_from_file_location(_os.path.basename(_f)[:-3], _f)
+    _m = _ilu.module_from_spec(_spec)
+    _m.reg, _m.ENGINES, _m.POST, _m.CRASHKEY, _m.NOT_CLAIMED = reg, ENGINES, POST, CRASHKEY, NOT_CLAIMED
+    _spec.loader.exec_module(_m)
